@@ -84,7 +84,8 @@ descriptorLoop:
 			if descriptor.Strict {
 				argTypes = nonNullableArgumentTypes
 			}
-			if len(argTypes) != len(descriptor.ArgumentTypes) {
+			if descriptor.TypeFn != nil || len(argTypes) != len(descriptor.ArgumentTypes) {
+				// Descriptors typed by a function have no ArgumentTypes to compare with.
 				continue
 			}
 			isMaybe := make([]bool, len(argTypes))
